@@ -226,6 +226,23 @@ def run(model, col, tier):
             if isinstance(c, ast.Call) and last_attr(c) in ("__FormatReference", "__FormatLabel") and c.args and isinstance(c.args[0], ast.Attribute) and isinstance(c.args[0].value, ast.Name) and c.args[0].value.id == pn:
                 col.check(c.args[0].attr != "Parent", "R17.3", f"{IR}::InstructionPrinter.{name} formats {c.args[0].attr}", "an operand of the instruction is printed",
                           f"`{unparse(c)}` prints the instruction's parent block where an operand belongs", IR, c)
+    # the listing (and what is stored) does not depend on the hash seed of the process: no set is walked with an
+    # order-dependent effect in the IR module, its printer or the print pass (= R18.1)
+    from ..state import is_set_expr as _ise, set_typed_sources as _sts
+    from .c18 import order_insensitive_body as _oib  # (the function only: C18's rule set itself draws on C17)
+
+    sattrs, smeths = _sts(model)
+    an_, mn_ = {a for _, a in sattrs}, {n_ for _, n_ in smeths}
+    nset = 0
+    for rel in (IR, "nsl/passes/PrintLinearIR.py"):
+        for lp in [n_ for n_ in ast.walk(model.file(rel).tree) if isinstance(n_, ast.For)]:
+            it = lp.iter
+            if _ise(it, an_, mn_) or (isinstance(it, ast.Attribute) and it.attr in mn_) or (isinstance(it, ast.Call) and isinstance(it.func, ast.Attribute) and it.func.attr in mn_ and not it.args):
+                nset += 1
+                ok_, why_ = _oib(lp)
+                col.check(ok_, "R17.3", f"{rel}:: loop over the set `{unparse(it)[:40]}` (line {lp.lineno})", "no order-dependent effect in the body",
+                          f"the loop over the set `{unparse(it)[:40]}` {why_}: the listing (or what is stored) follows the hash seed of the process that produced it", rel, lp)
+    col.note("loops over set-typed expressions in the IR module and its printer", nset)
     # ---------------- R17.4 nothing process-specific is stored --------------------------------------
     # str hashes are salted per process and id() is an address: a name or key derived from them and stored in the file
     # means something else to the process that loads it.  (hash() inside __hash__ only serves in-process containers.)
